@@ -65,6 +65,7 @@ func checkC14(w *World, r *Report) {
 	noGlobalWritesRule(w, r, "C14.stateless", "equality", []*ssa.Function{w.Fn("types", "Equal_Q"), w.Fn("types", "Sequential_Q"), w.Fn("types", "GetSlice")})
 	// = reaches Equal_Q through the binder's adapters: whatever those keep between calls is shared by concurrent comparisons
 	capturedStateRule(w, r, e, "C14.adapter-state")
+	allElementsRule(w, r, e, "C14.all-elements")
 	r.rule("C14.go-equality", "Go's == / != on two lisp values is used only where neither can be a comparable struct that carries a source position (a Symbol read from text compares unequal to the same symbol read elsewhere): such values must go through Equal_Q's own case")
 	goEqualityRule(w, r, e, "C14.go-equality")
 	r.rule("C14.symmetric-shape", "every collection case compares the sizes of both operands before comparing elements, and the two sequence cases recurse through the same function element by element")
@@ -515,6 +516,15 @@ func checkC13(w *World, r *Report) {
 	stringCharsRule(w, r, "C13.chars")
 	r.rule("C13.kind", "the kinds a collection builtin can return (computed as the possible dynamic types of its success results) stay within the kinds confirmed against the README / step files on the reviewed tree: concat, cons, rest, map, take, drop, keys, vals yield lists; vec, subvec, range vectors; assoc/dissoc/conj/update the kind of their argument; a builtin whose result could suddenly be 'whatever was passed' or another kind is reported")
 	kindRule(w, r, e, "C13.kind")
+	rangeErrorRule(w, r, e, "C13.range-error")
+	// "outside their domain (wrong kind ...) they return an error": the kind test is the binder's assignability test
+	r.include("C13.binder-", "C20.", "a builtin called with an argument of the wrong kind answers with the binder's type error: arguments reach the Go function exactly as given, nil as nil", checkC20, func(rule string) bool {
+		switch rule {
+		case "C20.nil-arg", "C20.siblings", "C20.checked-first", "C20.results":
+			return true
+		}
+		return false
+	})
 	r.rule("C13.seq-accessor", "the sequence accessor the builtins judge 'is this a sequence' by (types.GetSlice) hands out the element slice of a list or of a vector and nothing else: for every other kind of value it fails, which is what makes first, rest, nth, count, concat, take ... return an error outside their domain")
 	if gs := w.Fn("types", "GetSlice"); gs == nil {
 		r.undecided("C13.seq-accessor", nil, "types.GetSlice", token.NoPos, "function no longer resolves")
@@ -1459,6 +1469,15 @@ func checkC19(w *World, r *Report) {
 	r.rule("C19.wrap", "wherever lisp code splices file text into a form to be read (load-file in the header and in bootstrap.lisp) the literal that follows the file text begins with a line break, so a final comment without newline cannot swallow the closing text; the sibling definitions agree")
 	r.rule("C19.repl", "REPL is READ, then EVAL, then PRINT with the same scope and context and nothing else")
 	r.rule("C19.nil-cursor", "every dereference of an optional position pointer in the evaluator, lisperror and printer is nil-guarded (audited by C04.site / C05.site with Cursor, cursor, Module and outer treated as may-nil fields)")
+	// "wrapped in a single do" and "loaded with load-file" (which reads (do <file> nil)) mean what the forms mean
+	// one by one only if do evaluates every form, in order, whatever kind of form it is
+	r.include("C19.do-", "C01.", "forms fed one by one, wrapped in a single do, or loaded from a file are the same program: do evaluates each of its forms once, in order", checkC01, func(rule string) bool {
+		return rule == "C01.body" || rule == "C01.order" || rule == "C01.once"
+	})
+	// what a program means does not depend on which environment of the process was prepared last
+	r.include("C19.process-", "C11.", "eval and load-file evaluate in the environment they were registered in: no package-level variable stands in for it", checkC11, func(rule string) bool {
+		return rule == "C11.package-state" || rule == "C11.globals"
+	})
 	// cursor-free
 	a := newAudit(w, e, r, "C19.cursor-free")
 	a.computeClosure(evalEntries(w), func(f *ssa.Function) bool {
@@ -1786,6 +1805,18 @@ func positionFree(w *World, e *Engine, v ssa.Value, depth int) (bool, string) {
 				return positionFreeResult(w, e, callee, x.Index, depth)
 			}
 			return false, "error of a dynamic call"
+		}
+	case *ssa.Parameter:
+		// the parameter of an unexported function stands for the arguments at its call sites
+		if fn := x.Parent(); fn.Parent() == nil && fn.Object() != nil && !fn.Object().Exported() {
+			if args := w.callSiteArgs(x); len(args) > 0 {
+				for _, a := range args {
+					if ok, why := positionFree(w, e, a, depth+1); !ok {
+						return false, why
+					}
+				}
+				return true, "every argument passed for the parameter is position-free"
+			}
 		}
 	case *ssa.Phi:
 		for _, op := range x.Edges {
@@ -2333,6 +2364,35 @@ func checkC20(w *World, r *Report) {
 			}
 		}
 		r.check(okE && okV, "C20.results", pr.fn, pr.fn.Name(), pr.fn.Pos(), "value passed through, error returned iff non-nil", "results are not mapped by the convention")
+		// "iff non-nil": the one test between "no error" and "error" compares the error result's interface value
+		// with nil (reflect's IsNil on the Value, or on its Elem, answers another question and panics on structs)
+		wantCond := fmt.Sprintf("Interface(p0[%d])", pr.errIdx)
+		for _, rt := range (&evalModel{}).returns(pr.fn) {
+			ret := rt[0].(*ssa.Return)
+			ev := rt[2].(ssa.Value)
+			nilTested := false
+			for _, d := range pr.fn.Blocks {
+				iff := blockIf(d)
+				if iff == nil {
+					continue
+				}
+				bo, ok := iff.Cond.(*ssa.BinOp)
+				if !ok || (bo.Op != token.EQL && bo.Op != token.NEQ) || !isNilConst(bo.Y) || canonVal(e, bo.X) != wantCond {
+					continue
+				}
+				nilEdge := 0
+				if bo.Op == token.NEQ {
+					nilEdge = 1
+				}
+				if isNilConst(ev) && edgeDominates(d, nilEdge, ret.Block()) {
+					nilTested = true
+				}
+				if !isNilConst(ev) && edgeDominates(d, 1-nilEdge, ret.Block()) {
+					nilTested = true
+				}
+			}
+			r.check(nilTested, "C20.results", pr.fn, "test that decides between error and no error", ret.Pos(), wantCond+" compared with nil", "the return is not decided by comparing the function's error result with nil: an error value that is not a nil interface is dropped, or the test itself panics (IsNil on a struct error), so the caller does not get the error the function returned")
+		}
 	}
 	// panic
 	aud := newAudit(w, e, r, "C20.panic")
@@ -2486,6 +2546,74 @@ func checkC20(w *World, r *Report) {
 		}
 		r.check(nOuter >= 1 && okW, "C20.panic", ge, "wrapping of the original", ge.Pos(), "every error built from the panic value wraps it (or an error made from it) with %w", "the panic value is not wrapped with %w")
 	}
+	// nil arguments: a lisp nil is handed over as the zero value of the MalType interface, and as nothing else
+	r.rule("C20.nil-arg", "in the argument builders every lisp argument is boxed with reflect.ValueOf only where it is known to be non-nil, and a nil argument becomes reflect.Zero of the MalType interface type - not an invalid reflect.Value (Call panics on it) and not the zero value of the parameter's own type (a typed zero passes the assignability test that nil must fail: 0, \"\", an empty vector)")
+	{
+		isReflectFn := func(c *ssa.Call, name string) bool {
+			sc := c.Call.StaticCallee()
+			return sc != nil && sc.Name() == name && sc.Object() != nil && sc.Object().Pkg() != nil && sc.Object().Pkg().Path() == "reflect" && sc.Signature.Recv() == nil
+		}
+		// reflect.TypeOf([]types.MalType{}).Elem(): the MalType interface type
+		isMalIfaceType := func(v ssa.Value) bool {
+			c, ok := v.(*ssa.Call)
+			if !ok || !c.Call.IsInvoke() || c.Call.Method.Name() != "Elem" {
+				return false
+			}
+			tc, ok := c.Call.Value.(*ssa.Call)
+			if !ok || !isReflectFn(tc, "TypeOf") {
+				return false
+			}
+			mi, ok := tc.Call.Args[0].(*ssa.MakeInterface)
+			if !ok {
+				return false
+			}
+			sl, ok := mi.X.Type().Underlying().(*types.Slice)
+			return ok && isMalType(sl.Elem())
+		}
+		seenFn := map[*ssa.Function]bool{}
+		nz0, nv := 0, 0
+		for _, root := range []*ssa.Function{args, argsCtx} {
+			zeros := 0
+			for _, f := range w.withPkgHelpers(root) {
+				for _, b := range f.Blocks {
+					for _, in := range b.Instrs {
+						c, ok := in.(*ssa.Call)
+						if !ok {
+							continue
+						}
+						switch {
+						case isReflectFn(c, "ValueOf"):
+							x := c.Call.Args[0]
+							switch y := x.(type) {
+							case *ssa.MakeInterface:
+								x = y.X
+							case *ssa.ChangeInterface:
+								x = y.X
+							case *ssa.ChangeType:
+								x = y.X
+							}
+							if !isMalType(x.Type()) {
+								continue // the context, not a lisp argument
+							}
+							if !seenFn[f] {
+								nv++
+							}
+							r.check(e.nonNilFact(x, b), "C20.nil-arg", f, "reflect.ValueOf of a lisp argument", c.Pos(), "the argument is known to be non-nil here", "a lisp argument is boxed with reflect.ValueOf although it may be nil: ValueOf(nil) is the invalid Value, reflect's Call panics on it, and a builtin given nil answers with a go-error instead of running")
+						case isReflectFn(c, "Zero"):
+							zeros++
+							if !seenFn[f] {
+								nz0++
+							}
+							r.check(isMalIfaceType(c.Call.Args[0]), "C20.nil-arg", f, "value handed over for a nil argument", c.Pos(), "reflect.Zero of the MalType interface type", "nil is handed over as the zero value of another type ("+describeVal(e, c.Call.Args[0], 0)+"): a typed zero is assignable where nil is not, so the builtin runs on 0, \"\" or an empty collection instead of the caller getting a type error")
+						}
+					}
+				}
+				seenFn[f] = true
+			}
+			r.check(zeros >= 1, "C20.nil-arg", root, "nil arguments are provided for", root.Pos(), "reflect.Zero(MalType) on the nil path", "the builder has no value for a nil argument")
+		}
+		r.floor("C20.nil-arg", "boxings of lisp arguments", nv+nz0, 2)
+	}
 	// name
 	okLower, okRepl := false, false
 	var nameBlocks []*ssa.BasicBlock
@@ -2509,6 +2637,110 @@ func checkC20(w *World, r *Report) {
 		}
 	}
 	r.check(okLower && okRepl, "C20.name", callFn, "name derivation", callFn.Pos(), "lower-case, _ replaced by -", "the registered name is not derived as documented")
+	// the name the function is bound under: the override exactly as given, or the derived name
+	{
+		overrideParam := -1
+		for i, p := range callFn.Params {
+			if pt, ok := p.Type().(*types.Pointer); ok && isBasic(pt.Elem(), types.String) {
+				overrideParam = i
+			}
+		}
+		var isOverrideParam func(v ssa.Value, depth int) bool
+		isOverrideParam = func(v ssa.Value, depth int) bool {
+			if overrideParam >= 0 && v == ssa.Value(callFn.Params[overrideParam]) {
+				return true
+			}
+			// the like parameter of a helper the registration hands its own override parameter to
+			p, ok := v.(*ssa.Parameter)
+			if !ok || depth > 3 || p.Parent() == callFn {
+				return false
+			}
+			args := w.callSiteArgs(p)
+			if len(args) == 0 {
+				return false
+			}
+			for _, a := range args {
+				if !isOverrideParam(a, depth+1) {
+					return false
+				}
+			}
+			return true
+		}
+		fromOverride := func(v ssa.Value) bool {
+			ld, ok := v.(*ssa.UnOp)
+			return ok && ld.Op == token.MUL && isOverrideParam(ld.X, 0)
+		}
+		var mentionsOverride func(v ssa.Value, depth int) bool
+		mentionsOverride = func(v ssa.Value, depth int) bool {
+			if depth > 8 {
+				return false
+			}
+			for _, lf := range e.producers(v, map[ssa.Value]bool{}, 0) {
+				if fromOverride(lf) {
+					return true
+				}
+				switch x := lf.(type) {
+				case *ssa.Call:
+					for _, a := range x.Call.Args {
+						if isStringVal(a) && mentionsOverride(a, depth+1) {
+							return true
+						}
+					}
+				case *ssa.Slice:
+					if mentionsOverride(x.X, depth+1) {
+						return true
+					}
+				case *ssa.BinOp:
+					if mentionsOverride(x.X, depth+1) || mentionsOverride(x.Y, depth+1) {
+						return true
+					}
+				}
+			}
+			return false
+		}
+		nb := 0
+		for _, f := range w.withPkgHelpers(callFn) {
+			for _, b := range f.Blocks {
+				for _, in := range b.Instrs {
+					ci, ok := in.(ssa.CallInstruction)
+					if !ok || !ci.Common().IsInvoke() || ci.Common().Method.Name() != "Set" || len(ci.Common().Args) != 2 {
+						continue
+					}
+					// Symbol{Val: name}
+					var nameVal ssa.Value
+					if ld, ok := ci.Common().Args[0].(*ssa.UnOp); ok {
+						if al, ok := ld.X.(*ssa.Alloc); ok {
+							for _, ref := range *al.Referrers() {
+								if fa, ok := ref.(*ssa.FieldAddr); ok && fieldName(fa.X.Type(), fa.Field) == "Val" {
+									for _, u := range *fa.Referrers() {
+										if st, ok := u.(*ssa.Store); ok && st.Addr == ssa.Value(fa) {
+											nameVal = st.Val
+										}
+									}
+								}
+							}
+						}
+					}
+					if nameVal == nil {
+						continue
+					}
+					nb++
+					okName, nOverride := true, 0
+					why := ""
+					for _, lf := range e.producers(nameVal, map[ssa.Value]bool{}, 0) {
+						switch {
+						case fromOverride(lf):
+							nOverride++
+						case mentionsOverride(lf, 0):
+							okName, why = false, "the override name is rewritten ("+describeVal(e, lf, 0)+") before the function is bound under it"
+						}
+					}
+					r.check(okName && (overrideParam < 0 || nOverride >= 1), "C20.name", f, "name the function is bound under", in.Pos(), "the override exactly as given, or the derived name", nz(why, "the override name does not reach the binding")+": a function registered under an explicit name is not found under that name")
+				}
+			}
+		}
+		r.floor("C20.name", "bindings of registered functions", nb+1, 2)
+	}
 	aud2 := newAudit(w, e, r, "C20.name")
 	aud2.exempt = exemptionsC20
 	aud2.closure = nil
@@ -3878,4 +4110,222 @@ func (w *World) reachableTo(target *ssa.Function, rel string) map[*ssa.Function]
 		}
 	}
 	return out
+}
+
+// rangeErrorRule: a position outside a sequence is an error, not "nothing there": no builtin answers nil with a
+// nil error on a path on which it has just established that an index computed from its arguments is not below
+// the length of a sequence (index out of range is outside the domain; nil is a value a sequence can hold).
+func rangeErrorRule(w *World, r *Report, e *Engine, rule string) {
+	r.rule(rule, "no collection builtin returns nil without an error on a path where it has established that an index taken from its arguments is not less than the length of a list or vector (an absent position is an error, as for nth; nil would be indistinguishable from a stored nil)")
+	n := 0
+	seen := map[*ssa.Function]bool{}
+	for _, root := range w.registeredFuncs() {
+		if fnPkgPath(root) != modPath+"/lib/core" {
+			continue
+		}
+		for _, fn := range w.withPkgHelpers(root) {
+			if seen[fn] {
+				continue
+			}
+			seen[fn] = true
+			for _, d := range fn.Blocks {
+				iff := blockIf(d)
+				if iff == nil {
+					continue
+				}
+				bo, ok := iff.Cond.(*ssa.BinOp)
+				if !ok {
+					continue
+				}
+				tx, _, okx := e.linOf(bo.X)
+				ty, _, oky := e.linOf(bo.Y)
+				if !okx || !oky {
+					continue
+				}
+				// which edge means "index >= len"
+				outEdge := -1
+				switch {
+				case tx.Kind == 2 && ty.Kind == 1 && bo.Op == token.LSS: // i < len
+					outEdge = 1
+				case tx.Kind == 2 && ty.Kind == 1 && bo.Op == token.GEQ: // i >= len
+					outEdge = 0
+				case tx.Kind == 1 && ty.Kind == 2 && bo.Op == token.GTR: // len > i
+					outEdge = 1
+				case tx.Kind == 1 && ty.Kind == 2 && bo.Op == token.LEQ: // len <= i
+					outEdge = 0
+				}
+				if outEdge < 0 {
+					continue
+				}
+				lenTerm := ty
+				if tx.Kind == 1 {
+					lenTerm = tx
+				}
+				if !strings.Contains(lenTerm.K.Path, "Val") && !strings.Contains(lenTerm.String(), "GetSlice") {
+					// only lengths of lisp sequences
+					if _, isCall := lenTerm.K.Root.(*ssa.Extract); !isCall {
+						continue
+					}
+				}
+				n++
+				for _, rt := range (&evalModel{}).returns(fn) {
+					ret := rt[0].(*ssa.Return)
+					v, _ := rt[1].(ssa.Value)
+					ev, _ := rt[2].(ssa.Value)
+					if v == nil || ev == nil || !isNilConst(ev) || !isNilConst(v) {
+						continue
+					}
+					if edgeDominates(d, outEdge, ret.Block()) || (len(d.Succs) == 2 && d.Succs[outEdge] == ret.Block()) {
+						r.bad(rule, fn, "nil answered for a position beyond the end", ret.Pos(), "on the path where "+describeVal(e, bo, 0)+" rules the index out, the builtin returns nil and no error: an out-of-range position is outside the builtin's domain and must be an error")
+					}
+				}
+			}
+		}
+	}
+	r.add(rule, nil, "index-against-length tests in the collection builtins", token.NoPos, "ok", fmt.Sprintf("%d tests examined", n))
+	r.floor(rule, "index-against-length tests in the collection builtins", n, 2)
+}
+
+// allElementsRule: the element-by-element comparison of two sequences looks at every position, and the
+// comparison of two maps at every key: a counted loop over a sequence runs i = 0 .. len-1 (or len-1 .. 0) with
+// step one, and nothing inside a comparison loop skips an element on the strength of the two values alone.
+func allElementsRule(w *World, r *Report, e *Engine, rule string) {
+	r.rule(rule, "in Equal_Q and the functions it is built from, a counted loop that indexes the operands visits every index (from 0 while i < len, or from len-1 while i >= 0, step 1), and within a loop that compares elements or map values the recursive comparison is reached for every element: no branch that depends on the two values themselves continues the loop without it")
+	eq := w.Fn("types", "Equal_Q")
+	if eq == nil {
+		r.undecided(rule, nil, "types.Equal_Q", token.NoPos, "function no longer resolves")
+		return
+	}
+	n := 0
+	for _, f := range w.withPkgHelpers(eq) {
+		for _, l := range naturalLoops(f) {
+			blocks := loopBlocks(l)
+			// does the loop compare elements? (a recursive call of Equal_Q inside)
+			var rec *ssa.Call
+			for b := range blocks {
+				for _, in := range b.Instrs {
+					if c, ok := in.(*ssa.Call); ok && c.Call.StaticCallee() == eq {
+						rec = c
+					}
+				}
+			}
+			if rec == nil {
+				continue
+			}
+			n++
+			// (1) counted loops: the induction variable that indexes the operands
+			for _, in := range l.header.Instrs {
+				phi, ok := in.(*ssa.Phi)
+				if !ok {
+					break
+				}
+				if !isIntType(phi.Type()) {
+					continue
+				}
+				usedAsIndex := false
+				for b := range blocks {
+					for _, in2 := range b.Instrs {
+						switch x := in2.(type) {
+						case *ssa.IndexAddr:
+							if x.Index == ssa.Value(phi) {
+								usedAsIndex = true
+							}
+						case *ssa.Index:
+							if x.Index == ssa.Value(phi) {
+								usedAsIndex = true
+							}
+						}
+					}
+				}
+				if !usedAsIndex {
+					continue // the hidden counter of a range loop
+				}
+				var init, step ssa.Value
+				for i, op := range phi.Edges {
+					if blocks[l.header.Preds[i]] {
+						step = op
+					} else {
+						init = op
+					}
+				}
+				up, down := false, false
+				if bo, ok := step.(*ssa.BinOp); ok && bo.X == ssa.Value(phi) {
+					if k, ok := bo.Y.(*ssa.Const); ok && k.Value != nil && k.Int64() == 1 {
+						up, down = bo.Op == token.ADD, bo.Op == token.SUB
+					}
+				}
+				okLoop := false
+				why := "step is not one"
+				if iff := blockIf(l.header); iff != nil {
+					if c, ok := iff.Cond.(*ssa.BinOp); ok && c.X == ssa.Value(phi) {
+						switch {
+						case up:
+							ik, isK := init.(*ssa.Const)
+							ty, _, okLen := e.linOf(c.Y)
+							okLoop = isK && ik.Value != nil && ik.Int64() == 0 && c.Op == token.LSS && okLen && ty.Kind == 1
+							why = "an ascending loop must run from 0 while i < len"
+						case down:
+							ti, off, okI := e.linOf(init)
+							yk, isK := c.Y.(*ssa.Const)
+							okLoop = okI && ti.Kind == 1 && off == -1 && isK && yk.Value != nil && ((c.Op == token.GEQ && yk.Int64() == 0) || (c.Op == token.GTR && yk.Int64() == -1))
+							why = "a descending loop must run from len-1 while i >= 0"
+						}
+					}
+				}
+				r.check(okLoop, rule, f, "indices visited by the element loop", phi.Pos(), "every index of the sequence", "the loop that compares the elements does not visit every index ("+why+"): sequences that differ only at a skipped position compare equal, and equality stops being symmetric between lists and vectors")
+			}
+			// (2) the recursive comparison is not skipped on the strength of the values
+			for b := range blocks {
+				iff := blockIf(b)
+				if iff == nil || b == l.header {
+					continue
+				}
+				// a branch one of whose edges returns to the header without passing the comparison, decided by
+				// a call on the element values (anything but the comma-ok presence test)
+				for i, succ := range b.Succs {
+					if !blocks[succ] {
+						continue
+					}
+					skips := succ == l.header || (succ != rec.Block() && !rec.Block().Dominates(succ) && !blockReachesWithin(succ, rec.Block(), blocks, l.header))
+					if !skips || rec.Block() == b || rec.Block().Dominates(b) {
+						continue
+					}
+					dependsOnValues := false
+					for _, a := range condsOf(b, iff.Cond, i == 0) {
+						if c, ok := a.v.(*ssa.Call); ok && c.Call.StaticCallee() != nil && inModule(c.Call.StaticCallee()) {
+							dependsOnValues = true
+						}
+					}
+					if dependsOnValues {
+						r.bad(rule, f, "element skipped without being compared", iff.Pos(), "inside the comparison loop a test on the two values ("+describeVal(e, iff.Cond, 0)+") continues with the next element without comparing them: values that differ but pass that test are taken for equal, so equal maps can hold unequal values under a key")
+					}
+				}
+			}
+		}
+	}
+	r.floor(rule, "loops comparing elements in Equal_Q", n, 2)
+}
+
+// blockReachesWithin: from a there is a path to b that stays inside blocks and does not pass through header.
+func blockReachesWithin(a, b *ssa.BasicBlock, blocks map[*ssa.BasicBlock]bool, header *ssa.BasicBlock) bool {
+	if a == b {
+		return true
+	}
+	seen := map[*ssa.BasicBlock]bool{a: true}
+	work := []*ssa.BasicBlock{a}
+	for len(work) > 0 {
+		x := work[len(work)-1]
+		work = work[:len(work)-1]
+		for _, s := range x.Succs {
+			if seen[s] || !blocks[s] || s == header {
+				continue
+			}
+			if s == b {
+				return true
+			}
+			seen[s] = true
+			work = append(work, s)
+		}
+	}
+	return false
 }
